@@ -313,7 +313,7 @@ def register(kernel):
            model="linearb ROps (map (vscale ROps (1 / 2)) (pU r)) (pd r) v",
            model_name="F.linear(v, 0.5 U, d) (no separate model function; used by the gradient model)",
            tactic="intros; cbv [GEN]; tie_vec_norm; repeat f_equal; lra")
-    kernel("C02", name="gamma", file="qucumber/rbm/purification_rbm.py", func="PurificationRBM.gamma", vec=True, pairwise=True,
+    kernel("C02", sum_all_ok=True, name="gamma", file="qucumber/rbm/purification_rbm.py", func="PurificationRBM.gamma", vec=True, pairwise=True,
            inputs=[("v", "v", "BV"), ("vp", "vp", "BV"), ("eta", "plus", B), ("expand", "expand", B)],
            atoms=[("np.sign(eta)", "(if plus then IZR 1 else IZR (-1))", F), ("v.dim() < 2 and vp.dim() < 2", "dim1", B),
                   ("self.visible_bias", "(pb r)", "V"), ("self.weights_W", "(pW r)", "M"), ("self.hidden_bias", "(pc r)", "V")],
@@ -389,7 +389,7 @@ def register(kernel):
            tactic="intros; cbv [GEN sigma_z finish]; destruct absolute; reflexivity")
 
     # ------------------------------------------------------------------ C10: the per-basis KL divergence
-    kernel("C10", name="single_basis_KL", file="qucumber/utils/training_statistics.py", func="_single_basis_KL", vec=True,
+    kernel("C10", sum_all_ok=True, name="single_basis_KL", file="qucumber/utils/training_statistics.py", func="_single_basis_KL", vec=True,
            inputs=[("target_probs", "t", "V"), ("nn_probs", "q", "V")], hole_types={"x": "V"},
            atoms=[("probs_to_logits($x)", "(map (plogit ROps) $x)", "V")],
            coq_params=[("t", "list R"), ("q", "list R")], result=F, thm_params=[("t", "list R"), ("q", "list R")], gen_args="t q",
